@@ -4612,6 +4612,9 @@ class UDFFileIdentifierDescriptor:
                 self.fi = bytename.encode('utf-16_be')
                 self.encoding = 'utf-16_be'
             self.len_fi = len(self.fi) + 1
+            if self.len_fi > 255:
+                # The length of the file identifier is held in a single byte.
+                raise pycdlibexception.PyCdlibInvalidInput('The UDF name is too long to fit into a File Identifier Descriptor')
 
         self.parent = parent
 
